@@ -357,6 +357,7 @@ def prop_lowering(r):
     cls = ["target:" + r["target"], "ty:" + rr.get("ty", "index")] + sorted(built.features & {"loop", "if", "nested", "carried"})
     cls += ["state_crosses_control_flow"] if crossing else []
     cls += ["partial_setup"] if partial else []
+    cls += ["partial_unit_in_input"] if "partial_unit" in built.features else []
     cls += ["rocc_half_pair"] if half_pair else []
     cls += ["dedup"] if r.get("dedup", True) else ["no_dedup"]
     cls += ["overlap"] if r.get("overlap") else []
@@ -375,6 +376,18 @@ def lowering_strat(draw, tier):
     r["ty"] = draw(st.sampled_from(tys))
     r["dedup"] = draw(st.sampled_from([True, True, True, False]))
     r["overlap"] = draw(st.booleans())
+    if draw(st.integers(0, 3)) == 0:
+        # hand-written style: some units configure only a subset of the fields, in another order than declared
+        def deco(body):
+            for s in body:
+                if s[0] == "unit" and draw(st.booleans()):
+                    s.append([draw(st.integers(0, 11)), draw(st.integers(0, 7))])
+                elif s[0] == "for":
+                    deco(s[2])
+                elif s[0] == "if":
+                    deco(s[2])
+                    deco(s[3])
+        deco(r["body"])
     del r["accs"]  # rebuilt from the registry in prop (real field names)
     return r
 
